@@ -20,17 +20,49 @@ REVIEWED_HOM_SITES = {
 }
 
 
-# first line of the reviewed statements (normalised by ast.unparse)
-REVIEWED_HOM_STATEMENTS = {
-    ("whatshap.cli.haplotag.get_variant_information", "gt"): {"if not gt.is_homozygous():"},
-    ("whatshap.vcf.VariantTable.phased_blocks_as_reads", "genotype"): {"if genotype.is_homozygous():"},
-    ("whatshap.vcf.PhasedVcfWriter.write", "gt_type"): {"is_het = not gt_type.is_homozygous()"},
-    ("whatshap.vcf.PhasedVcfWriter.write", "genotypes[pos]"): {"is_het = not genotypes[pos].is_homozygous()"},
-    ("whatshap.cli.haplotagphase.run_haplotagphase", "genotype"): {"homozygous[variant.position] = genotype.is_homozygous()", "homozygous_number += genotype.is_homozygous()"},
-    ("whatshap.polyphase.variantselection.compute_phasable_variants", "gt1"): {"if gt1.is_homozygous():"},
-    ("whatshap.cli.compare.collect_common_variants", "gt"): {"het_variants = [v for v, gt in zip(variant_table.variants, variant_table.genotypes_of(sample)) if not gt.is_homozygous()]"},
-    ("whatshap.cli.compare.run_compare", "gt"): {"het_variants = [v for v, gt in zip(variant_table.variants, variant_table.genotypes_of(sample)) if not gt.is_homozygous()]"},
+# what the reviewed test is used FOR (not how the statement is spelled): a reviewed instance is one use of the receiver,
+# not every use of it in the function.  Kinds: "skip" (decides a continue / is part of such a condition), "flag:<name>"
+# (its value, possibly negated, is assigned / added to that name), "filter" (comprehension filter)
+REVIEWED_HOM_USES = {
+    ("whatshap.cli.haplotag.get_variant_information", "gt"): {"guarded-append:variants", "filter:variants"},
+    ("whatshap.vcf.VariantTable.phased_blocks_as_reads", "genotype"): {"skip"},
+    ("whatshap.vcf.PhasedVcfWriter.write", "gt_type"): {"flag:is_het"},
+    ("whatshap.vcf.PhasedVcfWriter.write", "genotypes[pos]"): {"flag:is_het"},
+    ("whatshap.cli.haplotagphase.run_haplotagphase", "genotype"): {"flag:homozygous", "flag:homozygous_number"},
+    ("whatshap.polyphase.variantselection.compute_phasable_variants", "gt1"): {"skip", "branch"},
+    ("whatshap.cli.compare.collect_common_variants", "gt"): {"filter:het_variants"},
+    ("whatshap.cli.compare.run_compare", "gt"): {"filter:het_variants"},
 }
+
+
+def hom_use_kind(n):
+    """What an `X.is_homozygous()` call is used for (see REVIEWED_HOM_USES)."""
+    stmt = util.stmt_of(n)
+    # comprehension filter
+    p = getattr(n, "parent", None)
+    child = n
+    while p is not None and p is not stmt:
+        if isinstance(p, ast.comprehension) and any(child is x or any(child is y for y in ast.walk(x)) for x in p.ifs):
+            tgt = util.root_name(stmt.targets[0]) if isinstance(stmt, ast.Assign) else "?"
+            return "filter:%s" % tgt
+        child, p = p, getattr(p, "parent", None)
+    if isinstance(stmt, ast.If) and any(x is n for x in ast.walk(stmt.test)):
+        body_kinds = {type(x).__name__ for x in stmt.body}
+        if body_kinds <= {"Continue"} or (not stmt.body and False):
+            return "skip"
+        apps = [c for c in ast.walk(stmt) if isinstance(c, ast.Call) and isinstance(c.func, ast.Attribute) and c.func.attr in ("append", "add")]
+        if len(stmt.body) == 1 and apps and not stmt.orelse:
+            return "guarded-append:%s" % util.root_name(apps[0].func.value)
+        # an if whose other branch is the continue
+        if stmt.orelse and {type(x).__name__ for x in stmt.orelse} <= {"Continue"}:
+            return "skip"
+        return "branch"
+    if isinstance(stmt, (ast.Assign, ast.AnnAssign)):
+        t = stmt.targets[0] if isinstance(stmt, ast.Assign) else stmt.target
+        return "flag:%s" % util.root_name(t)
+    if isinstance(stmt, ast.AugAssign):
+        return "flag:%s" % util.root_name(stmt.target)
+    return "other"
 
 
 def _short_circuit_atoms(node):
@@ -90,14 +122,21 @@ def check_none_before_hom(ctx, fi):
         if guarded:
             reason = "dominated by `not %s.is_none()`" % recv
         else:
-            reason = REVIEWED_HOM_SITES.get((fi.qual, recv))
+            # the receiver may be a local that stands for reviewed expressions (final_gt = gt_type / genotypes[pos])
+            origins = [recv]
+            if isinstance(n.func.value, ast.Name) and (fi.qual, recv) not in REVIEWED_HOM_SITES:
+                ds = [v for s_, v in util.assignments_to(fi.node, recv) if isinstance(v, ast.AST)]
+                if ds:
+                    origins = [u(v) for v in ds]
+            reasons = [REVIEWED_HOM_SITES.get((fi.qual, o)) for o in origins]
+            reason = "; ".join(sorted(set(reasons))) if reasons and all(r is not None for r in reasons) else None
             if reason is not None:
-                # a reviewed instance is one statement, not every use of that receiver in the function
-                stmt = util.stmt_of(n)
-                head = u(stmt).split("\n")[0] if stmt is not None else ""
-                allowed = REVIEWED_HOM_STATEMENTS.get((fi.qual, recv))
-                if allowed is not None and head not in allowed:
-                    reason = None
+                # a reviewed instance is one USE of the receiver, not every use of it in the function
+                kind = hom_use_kind(n)
+                for o in origins:
+                    allowed = REVIEWED_HOM_USES.get((fi.qual, o))
+                    if allowed is not None and kind not in allowed:
+                        reason = None
         ok = reason is not None
         ctx.ob(
             fi.qual,
